@@ -310,6 +310,8 @@ def handle(req):
         return {"ranks": out, "stored": [r[0] for r in stored]}
     if op == "gen":
         import gen
+        if req["profile"].get("kind") == "decode":
+            return gen.generate_decode(req)
         return gen.generate(req)
     if op == "ddl":
         import ddlgen
